@@ -149,13 +149,25 @@ class AsmTransformer(Transformer):
     def start(self, items: List[LineNode]) -> ProgramNode:
         # Filter out empty lines and stray NEWLINE tokens, while preserving the
         # original source line number for non-empty lines.
-        return {
-            "lines": [
-                line
-                for line in items
-                if isinstance(line, dict) and ("label" in line or "statement" in line)
-            ]
-        }
+        lines: List[LineNode] = []
+        for line in items:
+            if not (isinstance(line, dict) and ("label" in line or "statement" in line)):
+                continue
+            prev = lines[-1] if lines else None
+            # `line` may match an empty string, so "LABEL: stmt" can be parsed as a
+            # label-only line followed by a statement-only line. Rejoin them so the
+            # label sees the same address as in the unambiguous parse.
+            if (
+                prev is not None
+                and "statement" not in prev
+                and "label" in prev
+                and "label" not in line
+                and prev.get("source_line") == line.get("source_line")
+            ):
+                prev["statement"] = line["statement"]
+                continue
+            lines.append(line)
+        return {"lines": lines}
 
     @v_args(meta=True)
     def line(self, meta: Any, items: List[Any]) -> LineNode:
